@@ -625,7 +625,7 @@ TIERS = {
 RULE = ("one evaluation = one seeded scenario: a pool of caller-owned frames (1-3 tables x {Pandas with a seeded index "
         "labelling, Polars eager or lazy}, also captured by reference via data()/descr()), 2-6 pipelines of up to 6 steps "
         "from the C18 generator, and a history of 8-30 (thorough: 8-40) operations by 2-3 interleaved clients: eval / "
-        "transform / >> / ex() on Pandas and Polars, SQL generation and execution, repr/to_python/columns_used, "
+        "transform / >> / ex() on Pandas and Polars, SQL generation and execution, repr/to_python/columns_used, building (and discarding) derived pipelines on top of a live pipeline object, "
         "describe_table; odd run-seeds abort 10-35% of the evaluations at a chosen executor call-back (F4) and let clients "
         "mutate, in place, result frames they were handed earlier (F6). After "
         "every operation all pool frames are compared with their creation snapshots and every result with the first "
